@@ -27,8 +27,28 @@ def canon(a):
 
 
 def make_image(rnd, g, ns, nf):
-    kind = rnd.choice(["rand", "rand", "checker", "spiral", "comb", "full", "empty", "corners", "blobs", "diag", "isolated"])
+    kind = rnd.choice(["rand", "rand", "checker", "spiral", "comb", "full", "empty", "corners", "blobs", "diag", "isolated", "ladder"])
     im = np.zeros((ns, nf), np.float32)
+    if kind == "ladder":
+        # parallel vertical lines joined pairwise by rungs from right to left (a chain of label unions, each made without
+        # looking the earlier ones up), a free stroke at the left, everything tied together by a bar at the bottom
+        nl = max(2, min((nf - 1) // 2, (ns - 3) // 2, rnd.randint(3, 8)))
+        if 2 * nl + 1 <= nf and 2 * nl + 3 <= ns:
+            cols = [2 * (c + 1) for c in range(nl)]
+            last = cols[-1]
+            for c in cols:
+                im[:2 * (nl - 1) + 1, c] = 10
+            im[:2 * nl + 3, 0] = 10
+            im[:2 * nl + 3, last] = 10
+            row = 2
+            for c in cols[::-1][:-1]:
+                im[row, c - 1] = 10
+                row += 2
+            im[2 * nl + 2, :last + 1] = 10
+            if rnd.random() < 0.3:
+                im = im[:, ::-1].copy()
+        else:
+            kind = "rand"
     if kind == "rand":
         im = (g.random((ns, nf)) < rnd.choice([0.1, 0.3, 0.5, 0.7, 0.9])).astype(np.float32) * 10
     elif kind == "checker":
@@ -141,7 +161,7 @@ class C11(object):
                     im[:] = th - 1
                 frames.append(im.ravel().tolist())
             return {"entry": "labelimage.labelpeaks", "ns": ns, "nf": nf, "kind": "labelimage", "frames": frames, "threshold": th,
-                    "merge": rnd.random() < 0.8, "cfg": enginea.draw_cfg(rnd, max_team=4), "gstyle": 0, "image": [], "cut": 0.0}
+                    "merge": rnd.random() < 0.8, "reuse_buffer": rnd.random() < 0.3, "cfg": enginea.draw_cfg(rnd, max_team=4), "gstyle": 0, "image": [], "cut": 0.0}
         r = rnd.random()
         if r < 0.006:
             ns, nf = rnd.choice([(260, 260), (258, 300), (366, 366)])  # > 16384 (resp. > 32768: two growths) provisional labels at native capacity
@@ -273,8 +293,13 @@ class C11(object):
         digs = []
         with contextlib.redirect_stdout(io.StringIO()):
             lab = labelimage.labelimage((ns, nf), fileout=io.StringIO(), sptfile=io.StringIO())
+            buf = np.zeros((ns, nf), np.float32)
             for k, im in enumerate(ims):
-                lab.peaksearch(im, th, float(k))
+                if desc.get("reuse_buffer"):
+                    buf[:] = im                    # the caller reads every frame into the same array
+                    lab.labelpeaks(buf, th)
+                else:
+                    lab.peaksearch(im, th, float(k))
                 ref, nref = scipy.ndimage.label(im > np.float32(th), S8)
                 got = np.array(lab.blim)
                 digs.append(enginea.sha(got, lab.npk))
@@ -288,9 +313,9 @@ class C11(object):
                                       "hold the components of this frame (%d pixels labelled, %d above threshold)" %
                                       (k, len(ims), nref, float(im.max()), th, int((got != 0).sum()), int((ref != 0).sum()))}
                     break
-                if desc.get("merge", True):
+                if desc.get("merge", True) and not desc.get("reuse_buffer"):
                     lab.mergelast()
-            if viol is None:
+            if viol is None and not desc.get("reuse_buffer"):
                 lab.finalise()
         st = sim.stats()
         meas = enginea.run_measures(st, cfg)
@@ -412,7 +437,9 @@ class C11(object):
 
         # ---- dense, 8 and 4 connectivity
         for con8, ref, nref in ((1, ref8, n8), (0, ref4, n4)):
-            vals = {"data": im, "labels": [ns, nf], "threshold": th, "verbose": 0, "con8": con8, "ns": ns, "nf": nf}
+            # "eight-connected" is any non-zero flag (people write con8=8)
+            c8 = con8 if con8 == 0 else [1, 1, 8, 2, -2, 4][int(desc["cfg"]["garbage_seed"]) % 6]
+            vals = {"data": im, "labels": [ns, nf], "threshold": th, "verbose": 0, "con8": c8, "ns": ns, "nf": nf}
             ret, arr, st = kernels.run_kernel(sim, "connectedpixels", vals, {"data": "in", "labels": "out"}, cfg,
                                               gstyle=desc["gstyle"], step_cap=cap, pct_est=4 * ns * nf,
                                               track_conflicts=1, replay=desc.get("replay"))
